@@ -163,8 +163,9 @@ CLAIMS["C19"] = dict(
 CLAIMS["C32"] = dict(
     engine="kani-transplant",
     technique="bounded symbolic execution of the hand-written binary framings (IndexExprResult discriminant/from_parts, Sbbf bytes) with Kani+CBMC",
-    text=("Decides round trips of the metadata lance frames by hand rather than through prost: IndexExprResult::discriminant/from_parts (and rejection of "
-          "unknown discriminants) and the split-block bloom filter's byte form (thorough tier). Protobuf conversions of manifests, transactions, index "
+    text=("Decides round trips of the metadata lance frames by hand rather than through prost: the RowIdTreeMap byte framing (count, per fragment id / bitmap "
+          "size / bitmap, size 0 = full fragment: deserialize(serialize(m)) = m, serialized_size exact, truncated input rejected), "
+          "IndexExprResult::discriminant/from_parts (unknown discriminants rejected) and the split-block bloom filter's byte layout. Protobuf conversions of manifests, transactions, index "
           "metadata, row-id sequences and tag/branch JSON go through prost/serde over heap types and are NOT claimed."),
     note="Restricted to the named framings.",
 )
